@@ -97,8 +97,8 @@ var propSpecs = map[string]*propSpec{
 	"C04": {ID: "C04", Rules: rr("T1", "A4", "T2", "T3", "T4", "T5"), Controls: []string{"T1"},
 		Explanation: "Interprocedural field-based taint from every read of a decoded MessageExchangeHeads.Heads to log constructors, entry maps and Join: no entry object received from the network reaches a log except through its content address (T1); logs are only built with the store's access controller and id and only mutated through Append/Join (A4). Join direction and oplog provenance (T2); fetched entries with a foreign log id are refused (T3); only heads accepted by the access controller are handed to the replicator (T4); the claimed address is compared as a whole with the recomputed one (T5).",
 		NotDecided:  "the dependency's signature check and log-id filter inside Join; hash collision resistance."},
-	"C05": {ID: "C05", Rules: cat(rr("P1", "P4", "P5", "L4"), []ruleRef{except("P2", "snapshot", "queue")}), Controls: []string{"P1"},
-		Explanation: "Ordering of persistence effects on every path: Append → cache Put (error tested, failing branch leaves) → successful return; Join → Put of merged heads (error tested) → EventReplicated (P1); the keys written by those paths and the manifest marker are read back under the same names by the load path, the exchange and the local-presence test, and both head sets read by the load path feed the fetch (P2). No cached head key is deleted outside Drop (P4). A history fetched at load that is refused as a whole is merged entry by entry, so one refused ancestor does not cost the entries reported as replicated before the restart (L4).",
+	"C05": {ID: "C05", Rules: cat(rr("P1", "P3", "P4", "P5", "L4"), []ruleRef{except("P2", "snapshot", "queue")}), Controls: []string{"P1"},
+		Explanation: "Ordering of persistence effects on every path: Append → cache Put (error tested, failing branch leaves) → successful return; Join → Put of merged heads (error tested) → EventReplicated (P1); the keys written by those paths and the manifest marker are read back under the same names by the load path, the exchange and the local-presence test, and both head sets read by the load path feed the fetch (P2). No cached head key is deleted outside Drop (P4). The head persisted after a local write is produced and written inside one critical section, so the cache never ends up naming an older entry than the last acknowledged one (P3). A history fetched at load that is refused as a whole is merged entry by entry, so one refused ancestor does not cost the entries reported as replicated before the restart (L4).",
 		NotDecided:  "durability of leveldb/IPFS writes; the state recovered from each crash prefix (needs CRDT semantics)."},
 	"C06": {ID: "C06", Rules: []ruleRef{only("I1", "kvstore"), only("I2", "kvstore"), only("I3", "kvstore"), {Rule: "I4"}, only("I6", "kvstore"), only("I8", "kvstore"), only("I9", "kvstore", "stores/operation"), only("I10", "kvstore")}, Controls: []string{"I2"},
 		Explanation: "Key-value index: view computed from Values() only (I1); descending scan with a first-seen guard whose tested, marked and written key are the same expression, PUT stores and DEL deletes (I2, I3); every log change refreshes the view (I4). View writes keyed verbatim (I8); operations are decoded into fresh values (I9).",
